@@ -287,10 +287,23 @@ def _first_bad_member(exp: Any, got: Any, n: int) -> int:
 
 
 def check_config(cfg_name: str, family: str, ctor: str, kind: str, tier: str, seed: int) -> Dict[str, Any]:
+    max_actions = BOUNDS[tier]["max_actions"] if kind != "default" else DEFAULT_MAX_ACTIONS
+    cx = Ctx(cfg_name, family, ctor, max_actions)
+    try:
+        return _check_config(cx, cfg_name, family, ctor, kind, tier, seed)
+    except jax.errors.UnexpectedTracerError as e:
+        # a traced value was kept in Python-side state (self / module global) by one trace and read by a later
+        # one: reset/step are not functions of their arguments alone.  Nothing else can be compared then.
+        cx.violation("python-state-leaks-tracer", "a tracer stored outside the function by one trace of reset/step was "
+                     f"used by a later trace: {str(e)[:400]}", {"kind": "tracer-leak"})
+        return {"model": cfg_name, "family": family, "kind": kind, "ctor": ctor, "states": 0, "transitions": 0,
+                "validated": 0, "vacuity": dict(cx.vac), "violations": cx.violations, "aborted": "UnexpectedTracerError"}
+
+
+def _check_config(cx: "Ctx", cfg_name: str, family: str, ctor: str, kind: str, tier: str, seed: int) -> Dict[str, Any]:
     t_start = time.time()
     B = BOUNDS[tier]
-    max_actions = B["max_actions"] if kind != "default" else DEFAULT_MAX_ACTIONS
-    cx = Ctx(cfg_name, family, ctor, max_actions)
+    max_actions = cx.max_actions
     timing: Dict[str, float] = {}
 
     # two instances built before anything is driven: `env` is driven first, `twin` only at the end
@@ -804,6 +817,21 @@ def replay_case(doc: Dict[str, Any]) -> int:
     ctor, kind = r["ctor"], r["kind"]
     print(f"replay C02 {r.get('signature')}: {kind} on {ctor}")
     env = _make(ctor)
+    if kind == "tracer-leak":
+        k0 = prng(0)
+        try:
+            for _ in range(2):  # two independent traces of each function on one object
+                s0, _ts = jax.jit(lambda k: env.reset(k))(k0)
+            a = jnp.asarray(action_set(env, r["max_actions"])[0][0])
+            for _ in range(2):
+                jax.jit(lambda s, a: env.step(s, a))(s0, a)
+            for b in (1, 2):
+                jax.jit(jax.vmap(lambda s, a: env.step(s, a)))(tmap(lambda x: jnp.stack([jnp.asarray(x)] * b), s0), jnp.stack([a] * b))
+        except jax.errors.UnexpectedTracerError as e:
+            print(f"  second trace on the same object raised UnexpectedTracerError: {str(e)[:300]}")
+            return 1
+        print("  repeated tracing works")
+        return 0
     if kind == "effects":
         args = (prng(0),) if r["fn"] == "reset" else None
         if args is None:
